@@ -59,7 +59,7 @@ def run(chk):
     chk.add_tlc("MC_D4Pyth rational rotations", r)
     chk.tlc_must_pass("MC_D4Pyth", r)
     pc = [dict(c, id=i) for i, c in enumerate(r.cases)]
-    chk.require(len(pc) == 96, "pythagorean cases missing")
+    chk.require(len(pc) == 128 and any(c["d"] > 10000 for c in pc), "pythagorean cases missing")
     for c, q in zip(pc, vlib.harness("transform_pyth", pc, W)):
         if q.get("outcome") != "ok":
             chk.violation("transform-crash", "Transform", {k: c[k] for k in ("c", "s", "d", "r", "loc")}, q)
